@@ -339,11 +339,16 @@ def run(ctx):
     for part in common.pmap(work, [('reuse', chunk) for chunk in common.chunked(items, max(1, len(items) // 32))]):
         acc += part
     ctx.layer('instance-reuse', acc)
+    from props import c15_cli
+    c15_cli.run_layer(ctx)
 
 
 def replay(case):
     common.bind_repo()
     acc = Acc()
+    if case.get('layer') == 'cli':
+        from props import c15_cli
+        return c15_cli.replay(case)
     if 'reuse' in case:
         def shp(x):
             return (x[0], x[1], x[2], x[3], x[4] if isinstance(x[4], str) else tuple(x[4]), tuple(x[5]), x[6], tuple(x[7]) if x[7] else None)
